@@ -459,3 +459,73 @@ Corollary reachable_nodup wbs rows st :
 Proof.
   intros H. destruct (run_rows_nodup _ _ _ _ H regs_nodup_st0) as [H1 [H2 _]]. split; assumption.
 Qed.
+
+(* ------------------------------------------------------------ 3'. plain flows, as DESIGN §5-C10 words it *)
+
+(* a create_flow row without data sheet: one output flow, named by the row's (new) name *)
+Definition plain (f : fdef) : Prop := fd_dsheet f = [] /\ fd_drow f = [].
+Definition keyed_flow : irow -> option (str * fdef) := keyed fd_key row_flow.
+
+Lemma instances_plain st f :
+  plain f -> instances st f = rmap (fun x => [x]) (parse_flow st f (fd_key f) None).
+Proof. intros [H1 H2]. unfold instances. rewrite H1, H2. reflexivity. Qed.
+
+Lemma all_instances_plain st fl : Forall plain fl -> forall insts,
+  all_instances st fl = Ok insts ->
+  Forall2 (fun f p => parse_flow st f (fd_key f) None = Ok p) fl insts.
+Proof.
+  induction 1 as [|f rest Hf Hrest IH]; intros insts H; cbn [all_instances] in H.
+  - injection H as <-. constructor.
+  - rewrite (instances_plain _ _ Hf) in H.
+    destruct (parse_flow st f (fd_key f) None) as [p|e] eqn:Ep; [|discriminate]. cbn [rmap] in H.
+    destruct (all_instances st rest) as [ls|e]; [|discriminate]. injection H as <-.
+    constructor; [exact Ep|apply IH; reflexivity].
+Qed.
+
+Lemma last_val_plain st fl insts :
+  Forall2 (fun f p => parse_flow st f (fd_key f) None = Ok p) fl insts -> forall n,
+  match last_val str_eqb (map (fun f => (fd_key f, f)) fl) n with
+  | Some f => exists o, last_val str_eqb insts n = Some o /\ parse_flow st f n None = Ok (n, o)
+  | None => last_val str_eqb insts n = None
+  end.
+Proof.
+  induction 1 as [|f [k o] fl' insts' Hp Hrest IH]; intros n; [reflexivity|].
+  cbn [map last_val]. specialize (IH n).
+  destruct (last_val str_eqb (map (fun f0 => (fd_key f0, f0)) fl') n) as [f'|].
+  - destruct IH as [o' [H1 H2]]. exists o'. rewrite H1. split; [reflexivity|exact H2].
+  - rewrite IH. pose proof (parse_flow_name _ _ _ _ _ _ Hp) as [Hk _]. subst k.
+    destruct (str_eqb (fd_key f) n) eqn:Ek; [|reflexivity].
+    apply str_eqb_eq in Ek. subst n. exists o. split; [reflexivity|exact Hp].
+Qed.
+
+(* DESIGN §5-C10 item 3 for plain flows: the output flow named [n] exists iff the last row
+   of the history that mentions [n] (as a create_flow (new) name or as an ignore_row) is a
+   create_flow row; it is then built from THAT row (the last definition) *)
+Theorem plain_flow_last_word hist st insts flows :
+  Forall plain (spec_flows hist) ->
+  all_instances st (spec_flows hist) = Ok insts -> flows_by_name insts flows ->
+  forall n o,
+    (In o flows /\ of_name o = n) <->
+    exists f, last_word str_eqb row_ignores keyed_flow hist n = Some (Some f) /\
+              parse_flow st f n None = Ok (n, o).
+Proof.
+  intros Hpl Hi Hfbn n o.
+  pose proof (last_val_plain _ _ _ (all_instances_plain _ _ Hpl _ Hi) n) as Hlv.
+  unfold spec_flows in Hlv. rewrite (lsurvivors_keyed str_eqb row_ignores fd_key row_flow) in Hlv.
+  rewrite (last_val_survivors str_eqb str_eqb_eq) in Hlv. fold keyed_flow in Hlv.
+  destruct Hfbn as [Hk Hnd Hlast Hall]. split.
+  - intros [Hin Hn]. apply Hlast in Hin. rewrite Hn in Hin.
+    destruct (last_word str_eqb row_ignores keyed_flow hist n) as [[f|]|]; try congruence.
+    destruct Hlv as [o' [H1 H2]]. exists f. split; [reflexivity|]. congruence.
+  - intros [f [Hw Hp]]. rewrite Hw in Hlv. destruct Hlv as [o' [H1 H2]].
+    assert (o' = o) by congruence. subst o'.
+    assert (Hin : In n (map fst insts)).
+    { destruct (kmem str_eqb n (map fst insts)) eqn:Em; [apply (kmem_in str_eqb str_eqb_eq); exact Em|].
+      apply (kmem_false str_eqb str_eqb_eq) in Em. apply (last_val_none str_eqb str_eqb_eq) in Em. congruence. }
+    apply Hall in Hin. apply in_map_iff in Hin as [o2 [Ho2 Hin2]].
+    pose proof (Hlast _ Hin2) as H3. rewrite Ho2, H1 in H3. injection H3 as ->. split; assumption.
+Qed.
+
+(* read with [last_word_spec]: [last_word ... hist n = Some (Some f)] iff
+   hist = pre ++ r :: post, row r is a create_flow row with (new) name n and definition f,
+   and no row of post is a create_flow row named n or an ignore_row n *)
